@@ -9,6 +9,8 @@
 EXTENDS Integers, Sequences
 
 DomName == "int"
+MinI(a, b) == IF a < b THEN a ELSE b
+MaxI(a, b) == IF a > b THEN a ELSE b
 RECURSIVE P2(_)
 P2(k) == IF k = 0 THEN 1 ELSE 2 * P2(k - 1)
 ZJ(j)        == j
